@@ -109,3 +109,24 @@ Proof.
   rewrite (Centro.Props.C02.C02_wrap_transfer M m pts slack HM Hbox).
   apply hull_no_overflow; assumption.
 Qed.
+
+(* ------------------------------------------------------------------ round 7 (finding F36): the model-side
+   statement.  An index list that lists a label twice — in particular one that repeats the LARGEST
+   label, on which the kernel evaluates labels_ijv[pixidx, 2] with pixidx = number of rows — does not
+   satisfy kernel_pre_hull: the write-bound theorem never claimed such calls. *)
+Lemma nodupb_dup : forall (l : Z) pre mid post, nodupb (pre ++ l :: mid ++ l :: post) = false.
+Proof.
+  intros l pre mid post. destruct (nodupb (pre ++ l :: mid ++ l :: post)) eqn:E; [|reflexivity].
+  apply nodupb_NoDup in E. apply NoDup_remove_2 in E. exfalso. apply E.
+  apply in_or_app. right. apply in_or_app. right. left. reflexivity.
+Qed.
+
+Theorem hull_pre_rejects_repeated_label : forall ijv (l : Z) pre mid post,
+  kernel_pre_hull ijv (pre ++ l :: mid ++ l :: post) = false.
+Proof.
+  intros. unfold kernel_pre_hull. rewrite nodupb_dup. apply andb_false_r.
+Qed.
+
+(* the witness of F36: labels = zeros((8,8)), labels[1,1] = 2, indexes = [2, 2] *)
+Example hull_pre_f36_witness : kernel_pre_hull [((1, 1), 2)] [2; 2] = false /\ kernel_pre_hull [((1, 1), 2)] [2] = true.
+Proof. vm_compute. split; reflexivity. Qed.
